@@ -52,6 +52,10 @@ func lnRoutes() []map[string]any {
 		// consumed by a terminal handler that serves until the client hangs up (the client of a "hold" connection does so
 		// only after the listener has been closed)
 		{"match": []map[string]any{vhm(4, "Y", "hold")}, "handle": []map[string]any{{"handler": "verif_h", "k": "mark", "l": 1, "r": 5}, {"handler": "verif_h", "k": "term", "l": 1, "r": 5}}},
+		// "eatlate": a matched non-terminal route, then a route that needs MORE data before it says no (the matching
+		// deadline is armed again for that), then fall-through; the consumer reads after the matching timeout has passed
+		{"match": []map[string]any{vhm(4, "Y", "eatlate")}, "handle": []map[string]any{{"handler": "verif_h", "k": "mark", "l": 1, "r": 6}, {"handler": "verif_h", "k": "eat", "n": eatN}}},
+		{"match": []map[string]any{vhm(eatN+8, "N", "eatlate")}, "handle": []map[string]any{{"handler": "verif_h", "k": "term"}}},
 		// a non-terminal handler eats a prefix, then the connection falls through
 		{"match": []map[string]any{vhm(4, "Y", "eatfall")}, "handle": []map[string]any{{"handler": "verif_h", "k": "mark", "l": 1, "r": 3}, {"handler": "verif_h", "k": "eat", "n": eatN}}},
 		// never decided: matching fails when the client's stream ends
@@ -66,7 +70,17 @@ func runListener(sc lnScen, idx int, seed int64) (*lnTrace, error) {
 		return nil, err
 	}
 	base := runtime.NumGoroutine()
-	cfg, _ := json.Marshal(map[string]any{"routes": lnRoutes(), "matching_timeout": int64(5 * time.Second)})
+	late := false
+	for _, k := range sc.Mix {
+		if k == "eatlate" {
+			late = true
+		}
+	}
+	mt := 5 * time.Second
+	if late {
+		mt = 300 * time.Millisecond
+	}
+	cfg, _ := json.Marshal(map[string]any{"routes": lnRoutes(), "matching_timeout": int64(mt)})
 	lw := new(layer4.ListenerWrapper)
 	if err := json.Unmarshal(cfg, lw); err != nil {
 		return nil, err
@@ -95,6 +109,9 @@ func runListener(sc lnScen, idx int, seed int64) (*lnTrace, error) {
 		slen := sc.Slen
 		if (kind == "term" || kind == "eatfall" || kind == "tlsfall" || kind == "hold") && slen < 16 {
 			slen = 16
+		}
+		if kind == "eatlate" && slen < 300 {
+			slen = 300
 		}
 		rec := vh.NewRecorder(vh.MakeStream(seed*1000+int64(idx*16+i), slen+64))
 		rec.Kind, rec.ID, rec.Sink = kind, id, shared
@@ -145,6 +162,9 @@ func runListener(sc lnScen, idx int, seed int64) (*lnTrace, error) {
 			scn.EndKind = "hold"
 			held = append(held, scn)
 		}
+		if kind == "eatlate" {
+			scn.Pulls = []int{10, 30} // the second route sees 4 of the 8 bytes it wants after the first round
+		}
 		vh.RegisterRec(addr.String(), rec)
 		defer vh.UnregisterRec(addr.String())
 		conns[addr.String()] = &connInfo{rec: rec, conn: scn, kind: kind, slen: slen}
@@ -153,7 +173,7 @@ func runListener(sc lnScen, idx int, seed int64) (*lnTrace, error) {
 	fl.OnAccept = func(c net.Conn) {
 		ci := conns[c.RemoteAddr().String()]
 		from, k, isTLS := 0, ci.kind, false
-		if k == "eatfall" {
+		if k == "eatfall" || k == "eatlate" {
 			from, k = eatN, "fall"
 		}
 		if k == "tlsfall" {
@@ -248,6 +268,10 @@ func runListener(sc lnScen, idx int, seed int64) (*lnTrace, error) {
 		if sc.Consumer == "absent" {
 			close(startAccept)
 			settle(1000)
+		}
+		if late {
+			// the (slow) consumer starts reading only after the matching timeout of 300 ms has long passed
+			time.Sleep(450 * time.Millisecond)
 		}
 		close(release)
 		settle(1000)
